@@ -2,7 +2,9 @@
 
   models(...)            Hypothesis strategy of GenModel restricted to the feature set MJX-JAX accepts
                          (doc/mjx.rst feature table + mjx/_src/io.py gates), built on vf.modelgen.
-  unsupported_models()   small family with exactly one deliberately unsupported feature (gate test).
+  UNSUPPORTED / unsupported_xml(name)   small family with exactly one deliberately unsupported feature (gate test).
+  pinned(kind)           feature-pinned templates for C43 (capsule-capsule + elliptic, tendons, RK4 + stateful actuators).
+  known_mjx_crash(case)  sub-domains in which mjx.forward raises (reported findings), to be discarded by the checks.
   build(lib, xml)        compile with the tree engine (ctypes) and with the wheel (mujoco.MjModel, needed by
                          mjx.put_model); returns Case(tm, mm, mx, dx0) or raises Unsupported / CompileDiscard.
   skew(case)             names of model arrays that differ between the wheel-compiled model (what MJX consumed) and
